@@ -28,6 +28,22 @@ class HardInterrupt(BaseException):
     pass
 
 
+# what callers actually raise from a cancellation callback: their own subclass of some standard class
+_BASES = {"exc": Exception, "base": BaseException, "runtime": RuntimeError, "value": ValueError, "key": KeyError,
+          "os": OSError, "type": TypeError, "arith": ArithmeticError, "assert": AssertionError, "lookup": IndexError,
+          "timeout": TimeoutError, "attr": AttributeError, "interrupted": InterruptedError}
+_CLASSES = {"exc": Interrupt, "base": HardInterrupt}
+
+
+def exc_class(kind):
+    if kind not in _CLASSES:
+        _CLASSES[kind] = type("Cancelled_" + kind, (_BASES[kind],), {})
+    return _CLASSES[kind]
+
+
+POOLED_KINDS = tuple(k for k in _BASES if k != "base")
+
+
 class Injector:
     """check_interrupt callback with a fault plan.
 
@@ -88,7 +104,7 @@ class Runner:
         """plan: dict(mode, at, exc, poolsize, spec, sched_seed|decisions, recovery, rec_*)."""
         w = self.w
         mode = plan["mode"]
-        exc_cls = HardInterrupt if plan.get("exc") == "base" else Interrupt
+        exc_cls = exc_class(plan.get("exc", "exc"))
         # shared argument objects, so that "the inputs are unchanged" can be observed
         dims = cubes.build_dims(w)
         args = [(cubes.build_var(a.get("arr")), cubes.build_var(a.get("weights"))) for a in w["aggs"]]
@@ -113,6 +129,7 @@ class Runner:
             self.count("raises_fired_serial", len(inj.raised))
             if at:
                 self.count("fault_interrupt_serial_" + ("BaseException" if exc_cls is HardInterrupt else "Exception"))
+                self.count("interrupt_class_" + plan.get("exc", "exc"))
                 if at[0] == 0:
                     self.count("probe_interrupt_first_subcube")
                 elif at[0] == self.k - 1:
@@ -128,6 +145,7 @@ class Runner:
             self.count("raises_fired_pooled", len(inj.raised))
             if at:
                 self.count("fault_interrupt_pooled")
+                self.count("interrupt_class_" + plan.get("exc", "exc"))
             if len(inj.raised) >= 2:
                 self.count("probe_interrupt_two_chunks_at_once")
         if model.snapshot([dims, args]) != snap:
@@ -265,7 +283,8 @@ def plans_for(w, rng, tier, est_steps):
     k = n_subcubes(w)
     plans = [{"mode": "serial", "at": [], "exc": "exc"}]
     for i in range(k):
-        plans.append({"mode": "serial", "at": [i], "exc": "exc", "recovery": "serial" if i % 2 == 0 else "pooled"})
+        # an Exception-derived class (the family is drawn per plan) and a BaseException-derived one
+        plans.append({"mode": "serial", "at": [i], "exc": rng.choice(POOLED_KINDS), "recovery": "serial" if i % 2 == 0 else "pooled"})
         plans.append({"mode": "serial", "at": [i], "exc": "base", "recovery": "pooled" if i % 2 == 0 else "serial"})
     singles = list(range(k))
     if tier == "quick" and k > 6:
@@ -281,7 +300,7 @@ def plans_for(w, rng, tier, est_steps):
         if s == ["first-of-every-chunk"]:
             chunks = sched._chunks(list(range(k)), poolsize, None)
             s = [c[0] for c in chunks]
-        plans.append({"mode": "pooled", "at": s, "exc": "exc", "poolsize": poolsize,
+        plans.append({"mode": "pooled", "at": s, "exc": rng.choice(POOLED_KINDS), "poolsize": poolsize,
                       "recovery": rng.choice(("serial", "pooled"))})
     for p in plans:
         p.setdefault("poolsize", rng.choice((1, 2, 3, 4, 8)))
